@@ -28,8 +28,9 @@ func Parse(regex string) (*auto.NFA, error) {
 	m := new(mappers)
 	p := parser.New(m)
 
+	// The whole input must be a regular expression: a remaining suffix means the input is not valid.
 	out, ok := p.Parse(regex)
-	if !ok {
+	if !ok || out.Remaining != nil {
 		return nil, fmt.Errorf("invalid regular expression: %s", regex)
 	}
 
